@@ -104,7 +104,7 @@ def run(tier, seed):
     if tier == 'quick':
         nseq, variants = 2400, [('release', 1.0), ('dev', 0.25), ('std', 0.15)]
     else:
-        nseq, variants = 120000, [('release', 1.0), ('dev', 0.15), ('std', 0.15)]
+        nseq, variants = 120000, [('release', 1.0), ('dev', 0.15), ('std', 0.15), ('nightly', 0.05)]
     total = Result()
     extra = {}
     try:
